@@ -57,6 +57,47 @@ def iota (a : Nat) : Nat → List Nat
   | 0 => []
   | n + 1 => a :: iota (a + 1) n
 
+/-! ### The `terminated` latch shared with the forwarders
+
+`DebugSession::terminated` is an `Arc<AtomicBool>` shared with both forwarder threads.  The session sets
+it (no lock needed) BEFORE it writes `terminated`; a forwarder looks at it AFTER it has locked the
+transport and writes nothing when it is set (`spawn_output_forwarder`).  Steps of this model: -/
+
+inductive LAct
+  | lock (w : Nat)     -- writer `w` locks the transport (a forwarder then reads the latch)
+  | write (w : Nat)    -- writer `w`, holding the lock, writes its message (if it decided to) and unlocks
+  | setLatch           -- the session stores `true` into the latch
+  deriving Repr, DecidableEq
+
+/-- `holder`: who holds the transport lock and whether it is going to write; `wire`: the writer of each
+message together with the value of the latch when a SESSION message was written (`(0, true)` = a session
+message written after the latch was set, e.g. `terminated` itself) -/
+structure LSt where
+  latch : Bool := false
+  holder : Option (Nat × Bool) := none
+  wire : List (Nat × Bool) := []
+
+def lstep (s : LSt) : LAct → LSt
+  | .setLatch => { s with latch := true }
+  | .lock w =>
+    match s.holder with
+    | none => { s with holder := some (w, w = 0 || !s.latch) }   -- the session always writes
+    | some _ => s                                                -- blocked
+  | .write w =>
+    match s.holder with
+    | some (v, go) =>
+      if v = w then
+        { s with holder := none, wire := if go then s.wire ++ [(w, w = 0 && s.latch)] else s.wire }
+      else s
+    | none => s
+
+def lrun (acts : List LAct) : LSt := acts.foldl lstep {}
+
+/-- nothing but session messages after a session message that was written with the latch set -/
+def quietAfterLatched : List (Nat × Bool) → Bool
+  | [] => true
+  | (w, l) :: rest => if w = 0 && l then rest.all (fun m => m.1 = 0) else quietAfterLatched rest
+
 end Writer
 
 /-! ## Session model -/
@@ -292,11 +333,14 @@ def plan (dbg : Dbg) (bpRecords : Nat) (r : Req) (h : Hint) : List Act × HRes :
     else if dbg == .inProgress && h.evalOk then ([.respond true], .ok)
     else ([], .err)
   | .continue_ =>
-    -- the precondition is checked first; then the response and `continued` are sent BEFORE the
-    -- blocking debugger call; a failure of that call is announced as a stop, not as a second response
-    -- (control.rs handle_continue, emit_stop_reason_answered)
-    if dbg != .inProgress then ([], .err)
-    else
+    -- the execution status is looked at first: no debugger / exited ⇒ `Err`; loaded but not started ⇒
+    -- accepted, nothing continues, no `continued`; in progress ⇒ the response and `continued` are sent
+    -- BEFORE the blocking debugger call, and a failure of that call is announced as a stop, not as a
+    -- second response (control.rs handle_continue, emit_stop_reason_answered)
+    match dbg with
+    | .none | .exited => ([], .err)
+    | .unload => ([.respond true], .ok)
+    | .inProgress =>
       let pre : List Act := [.enq [.ev .continued], .respond true, .drain 0]
       match h.outcome with
       | .none => (pre ++ [.enq (threadEvents h ++ [.ev (.stopped "exception")]), .drain 0], .ok)
